@@ -376,6 +376,12 @@ func (h *histogram) RecordValue(value float64) {
 	idx := sort.Search(len(h.buckets), func(i int) bool {
 		return h.buckets[i].valueUpperBound >= value
 	})
+	if idx >= len(h.samples) {
+		// +Inf and NaN are not <= math.MaxFloat64, so the search finds no
+		// bucket for them: count them in the last bucket instead of
+		// indexing out of range.
+		idx = len(h.samples) - 1
+	}
 	h.samples[idx].counter.Inc(1)
 }
 
